@@ -17,8 +17,8 @@ func init() {
 		ID: "C06", Section: "3 C06",
 		Technique: "guarded-by lock-set analysis of BfeBackend's state fields, control-dependence (guard) census of the down/up transitions, must-pass path rules on the checker loop, who-may-spawn / who-may-close census",
 		Meta: core.Meta{
-			Level: "other",
-			Explanation: "Decides the shape of the health state machine in bfe_balance/backend: (a) every access to avail/restarted/connNum/failNum/succNum happens under the backend's RWMutex (stores and read-modify-writes under the write lock; setAvail's requirement is discharged at each caller); BfeBackend.UpdateStatus tests failNum >= threshold, calls setAvail(false) and reads the previous availability inside one write-locked section and returns true only when the previous value was true; (b) the only `go check(...)` is in backend.UpdateStatus, control-dependent on BfeBackend.UpdateStatus(*conf.FailNum) == true, and every path with a non-nil check conf reaches that call; OnFail always counts the failure and then evaluates the status; OnSuccess resets failNum; setAvail(true) resets failNum; (c) in the checker loop SetAvail(true) is dominated by CheckAvail(*conf.SuccNum) == true, every failed probe passes ResetSuccNum before the next iteration, every successful probe passes AddSuccNum before CheckAvail, every iteration polls the close channel, CheckAvail compares succNum >= threshold and resets it; (d) close(closeChan) only in BfeBackend.Close. Not covered: wall-clock behaviour, the probe itself (CheckConnect), fairness of the scheduler.",
+			Level:       "other",
+			Explanation: "Decides the shape of the health state machine in bfe_balance/backend: (a) every access to avail/restarted/connNum/failNum/succNum happens under the backend's RWMutex (stores and read-modify-writes under the write lock; a private method that touches them without locking \u2014 setAvail today \u2014 transfers the requirement to each of its call sites); in the region of BfeBackend.UpdateStatus (the method plus its private helpers) every write of avail is `false`, control-dependent on failNum >= threshold (any spelling of the comparison, also through named booleans and helper results) and under the write lock, and on every enumerated path on which the method can answer true the threshold branch was taken and the answer depends on a load of avail made under the write lock before avail is written, with no unlock in between; (b) every `go` of a function that probes (CheckConnect) is in the region of backend.UpdateStatus, control-dependent on BfeBackend.UpdateStatus(*conf.FailNum) == true for that backend, and every return of backend.UpdateStatus either passed that call or is guarded by a nil check conf; OnFail always counts the failure before it evaluates the status; OnSuccess resets failNum; every function that can store avail=true resets failNum when it does; (c) in the checker (the function started by that `go`, with its private helpers, followed interprocedurally): SetAvail(true) is control-dependent on CheckAvail(*conf.SuccNum) == true and not reachable without SetRestart(true); AddSuccNum is control-dependent on a successful probe; from a probe neither the next probe nor the end of the checker is reachable without AddSuccNum/ResetSuccNum, nor CheckAvail without AddSuccNum, nor the next probe without polling the close channel; every cycle of the unbounded checker loop polls the close channel; CheckAvail answers true only on paths that established succNum >= threshold and reset succNum; (d) close(closeChan) only in BfeBackend.Close. Not covered: wall-clock behaviour, the probe itself (CheckConnect), fairness of the scheduler; a previous-availability read that is moved out of the function holding UpdateStatus's body into a separate helper is reported (the load must be visible on the enumerated path).",
 			RuleText:    "obligations = each access to a guarded field, each transition site (spawn, SetAvail, thresholds), each loop path class of check()",
 		},
 		Run: runC06,
@@ -34,21 +34,33 @@ func init() {
 			{Name: "onsuccess-noop", File: "bfe_balance/backend/bfe_backend.go", Old: "	// reset backend failnum\n	back.ResetFailNum()", New: "	// reset backend failnum", Expect: "onsuccess-reset"},
 			{Name: "close-poll-after-conf-retry", File: "bfe_balance/backend/health_check.go", Old: "		select {\n		case <-c: // backend deleted\n			break loop\n		default:\n		}\n\n		// get the latest conf to do health check\n		checkConf := getCheckConf(cluster)\n		if checkConf == nil {\n			// never come here\n			time.Sleep(time.Second)\n			continue\n		}\n", New: "		// get the latest conf to do health check\n		checkConf := getCheckConf(cluster)\n		if checkConf == nil {\n			// never come here\n			time.Sleep(time.Second)\n			continue\n		}\n\n		select {\n		case <-c: // backend deleted\n			break loop\n		default:\n		}\n", Expect: "close-poll"},
 			{Name: "close-poll-dropped", File: "bfe_balance/backend/health_check.go", Old: "		select {\n		case <-c: // backend deleted\n			break loop\n		default:\n		}\n", New: "		_ = c\n", Expect: "close-poll"},
+			{Name: "silent-extract-mark-recovered", File: "bfe_balance/backend/health_check.go", Old: "\t\tbackend.SetRestart(true)\n\t\tbackend.SetAvail(true)\n\t\tbreak loop\n\t}\n}\n", New: "\t\tmarkRecovered(backend)\n\t\tbreak loop\n\t}\n}\n\nfunc markRecovered(b *BfeBackend) {\n\tb.SetRestart(true)\n\tb.SetAvail(true)\n}\n", Silent: true},
+			{Name: "silent-extract-start-checker", File: "bfe_balance/backend/health_check.go", Old: "\t\tgo check(backend, cluster)\n\t\treturn true\n\t}\n\n\treturn false\n}\n", New: "\t\tstartChecker(backend, cluster)\n\t\treturn true\n\t}\n\n\treturn false\n}\n\nfunc startChecker(b *BfeBackend, name string) {\n\tgo check(b, name)\n}\n", Silent: true},
+			{Name: "silent-updatestatus-early-return-mirrored", File: "bfe_balance/backend/bfe_backend.go", Old: "\tif back.failNum >= failThreshold {\n\t\tback.setAvail(false)\n\t\tif prevStatus {\n\t\t\treturn true\n\t\t}\n\t}\n\n\treturn false\n}", New: "\tif failThreshold > back.failNum {\n\t\treturn false\n\t}\n\tback.setAvail(false)\n\treturn prevStatus\n}", Silent: true},
+			{Name: "silent-named-boolean-eq-false", File: "bfe_balance/backend/health_check.go", Old: "\t\tif !backend.CheckAvail(*checkConf.SuccNum) {", New: "\t\tneeded := *checkConf.SuccNum\n\t\tenough := backend.CheckAvail(needed)\n\t\tif enough == false {", Silent: true},
+			{Name: "silent-defer-unlock-plus-equals", File: "bfe_balance/backend/bfe_backend.go", Old: "\tback.Lock()\n\tback.succNum++\n\tback.Unlock()\n", New: "\tback.Lock()\n\tdefer back.Unlock()\n\tback.succNum += 1\n", Silent: true},
+			{Name: "silent-debug-log-on-success", File: "bfe_balance/backend/health_check.go", Old: "\t\tbackend.AddSuccNum()\n", New: "\t\tbackend.AddSuccNum()\n\t\tif bfe_debug.DebugHealthCheck {\n\t\t\tlog.Logger.Debug(\"backend %s probe ok\", backend.Name)\n\t\t}\n", Silent: true},
+			{Name: "silent-checkavail-renamed-named-result", File: "bfe_balance/backend/bfe_backend.go", Old: "func (back *BfeBackend) CheckAvail(succThreshold int) bool {\n\tback.Lock()\n\tdefer back.Unlock()\n\n\tif back.succNum >= succThreshold {\n\t\tback.succNum = 0\n\t\treturn true\n\t}\n\n\treturn false\n}", New: "func (b *BfeBackend) CheckAvail(need int) bool {\n\tb.Lock()\n\tdefer b.Unlock()\n\n\treached := b.succNum >= need\n\tif reached {\n\t\tb.succNum = 0\n\t}\n\treturn reached\n}", Silent: true},
+			{Name: "silent-probe-if-else", File: "bfe_balance/backend/health_check.go", Old: "\t\tif ok, err := CheckConnect(backend, checkConf); !ok {\n\t\t\tbackend.ResetSuccNum()\n\t\t\tif bfe_debug.DebugHealthCheck {\n\t\t\t\tlog.Logger.Debug(\"backend %s still not avail (check failure: %s)\", backend.Name, err)\n\t\t\t}\n\t\t\ttime.Sleep(checkInterval)\n\t\t\tcontinue\n\t\t}\n", New: "\t\tconnected, cerr := CheckConnect(backend, checkConf)\n\t\tfailed := !connected\n\t\tif failed {\n\t\t\tbackend.ResetSuccNum()\n\t\t\tif bfe_debug.DebugHealthCheck {\n\t\t\t\tlog.Logger.Debug(\"backend %s still not avail (check failure: %s)\", backend.Name, cerr)\n\t\t\t}\n\t\t\ttime.Sleep(checkInterval)\n\t\t\tcontinue\n\t\t}\n", Silent: true},
 		},
 	})
 }
 
 func runC06(c *core.Ctx) {
 	const pkg = "bfe_balance/backend"
+	const bkT = "backend.BfeBackend"
 	if c.P.Pkg(pkg) == nil {
 		c.Missing(pkg)
 		return
 	}
+	p := c.P
 	T := func(n string) string { return pkg + ".BfeBackend." + n }
-	fns := c.P.SrcFuncs(pkg)
+	fns := p.SrcFuncs(pkg)
 	guarded := map[string]bool{"avail": true, "restarted": true, "connNum": true, "failNum": true, "succNum": true}
 	// ---- (a) guarded-by -------------------------------------------------------
-	needCallerLock := map[*ssa.Function]bool{}
+	// A private method that touches guarded fields without taking any lock itself
+	// (setAvail today) transfers the requirement to every one of its call sites.
+	needCallerLock := map[*ssa.Function]string{}
 	for _, fn := range fns {
 		k := core.FuncKey(fn)
 		if k == pkg+".NewBfeBackend" {
@@ -56,13 +68,21 @@ func runC06(c *core.Ctx) {
 		}
 		ls := core.ComputeLockSets(fn)
 		ord := map[string]int{}
+		locksItself := false
+		core.Instrs(fn, func(in ssa.Instruction) {
+			if ci, ok := in.(ssa.CallInstruction); ok {
+				if _, _, isLock := core.LockEvent(ci.Common()); isLock {
+					locksItself = true
+				}
+			}
+		})
 		core.Instrs(fn, func(in ssa.Instruction) {
 			fa, ok := in.(*ssa.FieldAddr)
 			if !ok {
 				return
 			}
 			fv := core.FieldObj(fa.X, fa.Field)
-			if fv == nil || !guarded[fv.Name()] || !strings.HasSuffix(core.TypeStr(fa.X.Type()), "backend.BfeBackend") {
+			if fv == nil || !guarded[fv.Name()] || !strings.HasSuffix(core.TypeStr(fa.X.Type()), bkT) {
 				return
 			}
 			c.Analysed(k)
@@ -80,333 +100,607 @@ func runC06(c *core.Ctx) {
 			held := ls.Holds(in, lock, mode)
 			ord[fv.Name()+mode]++
 			key := fmt.Sprintf("%s:%s:%s#%d", k, fv.Name(), mode, ord[fv.Name()+mode])
-			if !held && len(ls.Held(in)) == 0 && fn.Name() == "setAvail" {
-				needCallerLock[fn] = true
-				c.Check("guarded-by", key, in.Pos(), true, "requirement transferred to callers of setAvail")
+			if !held && !locksItself && rbPrivateCallee(p, fn) {
+				if mode == "W" || needCallerLock[fn] == "" {
+					needCallerLock[fn] = mode
+				}
+				c.Check("guarded-by", key, in.Pos(), true, "requirement transferred to the callers of "+fn.Name())
 				return
 			}
 			c.Check("guarded-by", key, in.Pos(), held, fmt.Sprintf("BfeBackend.%s is accessed (%s) without %s held (%s needed); held: %v", fv.Name(), map[bool]string{true: "write", false: "read"}[write], lock, mode, ls.Held(in)))
 		})
 	}
 	c.Min("guarded-by", 15)
-	for callee := range needCallerLock {
-		for _, fn := range c.P.SrcFuncs("") {
+	for callee, mode := range needCallerLock {
+		for _, fn := range p.SrcFuncs("") {
+			sites := core.Calls(fn, core.FuncKey(callee))
+			if len(sites) == 0 {
+				continue
+			}
 			ls := core.ComputeLockSets(fn)
-			for i, ci := range core.Calls(fn, core.FuncKey(callee)) {
+			for i, ci := range sites {
+				if len(ci.Common().Args) == 0 {
+					continue
+				}
 				lock := core.Render(ci.Common().Args[0]) + ".RWMutex"
-				c.Check("guarded-by", fmt.Sprintf("%s:call-%s#%d", core.FuncKey(fn), callee.Name(), i), ci.Pos(), ls.Holds(ci.(ssa.Instruction), lock, "W"),
-					callee.Name()+" (which writes guarded fields without locking) is called without the write lock "+lock)
+				_, plain := ci.(*ssa.Call)
+				c.Check("guarded-by", fmt.Sprintf("%s:call-%s#%d", core.FuncKey(fn), callee.Name(), i), ci.Pos(), plain && ls.Holds(ci.(ssa.Instruction), lock, mode),
+					callee.Name()+" (which accesses guarded fields without locking) is called without the lock "+lock+" ("+mode+")")
 			}
 		}
 	}
+	// role predicates on BfeBackend's state
+	storeTo := func(in ssa.Instruction, field string) (*ssa.Store, ssa.Value) {
+		st, ok := in.(*ssa.Store)
+		if !ok {
+			return nil, nil
+		}
+		base, ok := rbFieldAddr(st.Addr, bkT, field)
+		if !ok {
+			return nil, nil
+		}
+		return st, base
+	}
+	isStoreZero := func(field string) func(ssa.Instruction) bool {
+		return func(in ssa.Instruction) bool {
+			st, _ := storeTo(in, field)
+			return st != nil && isZero(st.Val)
+		}
+	}
+	isAvailStore := func(in ssa.Instruction) bool { st, _ := storeTo(in, "avail"); return st != nil }
+	isUnlock := func(in ssa.Instruction) bool {
+		call, ok := in.(*ssa.Call)
+		if !ok {
+			return false
+		}
+		k, _, ok := core.LockEvent(&call.Call)
+		return ok && (k == "Unlock" || k == "RUnlock")
+	}
 	// ---- (a) test-and-set in BfeBackend.UpdateStatus ----------------------------
-	if fn := c.P.Func(pkg, "BfeBackend.UpdateStatus"); fn == nil {
+	if top := p.Func(pkg, "BfeBackend.UpdateStatus"); top == nil {
 		c.Missing(T("UpdateStatus"))
+	} else if len(top.Params) < 2 {
+		c.Missing(T("UpdateStatus") + " (receiver, threshold)")
 	} else {
-		c.Analysed(core.FuncKey(fn))
-		ls := core.ComputeLockSets(fn)
-		sets := core.Calls(fn, T("setAvail"))
-		okSet := len(sets) >= 1
-		for _, s := range sets {
-			in := s.(ssa.Instruction)
-			isFalse := core.Render(s.Common().Args[1]) == "false"
-			thr := core.HasGuard(in.Block(), func(g core.Guard) bool {
-				b, ok := g.Cond.(*ssa.BinOp)
-				return ok && g.Pol && b.Op == token.GEQ && core.Render(b.X) == "back.failNum" && core.Render(b.Y) == "failThreshold"
-			})
-			c.Check("fail-threshold", "BfeBackend.UpdateStatus:setAvail", in.Pos(), isFalse && thr, "the down transition must be setAvail(false) under failNum >= failThreshold; guards: "+strings.Join(core.GuardStrs(in.Block()), " && "))
-			if !ls.Holds(in, "back.RWMutex", "W") {
-				okSet = false
+		recv, thr := ssa.Value(top.Params[0]), ssa.Value(top.Params[1])
+		fn := rbUnwrapTail(p, top) // the function that holds the body (a private helper when the body was extracted)
+		region := rbRegion(p, top)
+		for _, g := range region {
+			c.Analysed(core.FuncKey(g))
+		}
+		isFailNum := func(v ssa.Value) bool {
+			base, ok := rbFieldLoad(rbRoot(p, v), bkT, "failNum")
+			return ok && rbRoot(p, base) == recv
+		}
+		thrAtom := rbCmpAtom(token.GEQ, isFailNum, func(v ssa.Value) bool { return rbRoot(p, v) == thr })
+		// the down transition: every write of avail in the region is `false`, under the threshold test, under the write lock
+		writes := rbAvailWrites(p, region, isAvailStore)
+		nw := 0
+		for _, w := range writes {
+			allFalse := len(w.vals) > 0
+			for _, v := range w.vals {
+				if k, ok := rbBoolConst(rbRoot(p, v)); !ok || k {
+					allFalse = false
+				}
 			}
+			nw++
+			key := "BfeBackend.UpdateStatus:setAvail"
+			if nw > 1 {
+				key = fmt.Sprintf("%s#%d", key, nw)
+			}
+			okThr := rbGuarded(p, w.in.Block(), thrAtom)
+			okLock := rbHoldsUp(p, w.in, ".RWMutex", "W", 3)
+			c.Check("fail-threshold", key, w.in.Pos(), allFalse && okThr && okLock,
+				fmt.Sprintf("the down transition must set avail=false under failNum >= failThreshold inside the write-locked section (false: %v, threshold guard: %v, write lock: %v); guards: %s", allFalse, okThr, okLock, strings.Join(core.GuardStrs(w.in.Block()), " && ")))
 		}
 		c.Min("fail-threshold", 1)
-		// return true only when the previous value (loaded under the same write lock, before setAvail) was true
-		for i, r := range core.Returns(fn) {
-			rv := core.RetVals(r)
-			if core.Render(rv[0]) != "true" {
-				if core.Render(rv[0]) != "false" {
-					c.Check("test-and-set", fmt.Sprintf("BfeBackend.UpdateStatus:return#%d", i), r.Pos(), false, "UpdateStatus returns a non-constant "+core.Render(rv[0]))
-				}
-				continue
+		// `true` is answered only on paths that (1) took the threshold branch, (2) observed avail==true by a load made
+		// under the write lock before avail was written, (3) with no unlock between that load and the return
+		isWrite := map[ssa.Instruction]bool{}
+		for _, w := range writes {
+			isWrite[w.in] = true
+		}
+		mayUnlock := core.LiftMay(isUnlock, 2)
+		type verdict struct {
+			ok     bool
+			detail string
+		}
+		perRet := map[*ssa.Return]*verdict{}
+		complete := rbResultPaths(fn, 0, true, func(r *ssa.Return, path *core.Path, facts []rbFact) {
+			v := perRet[r]
+			if v == nil {
+				v = &verdict{ok: true}
+				perRet[r] = v
 			}
-			ok := false
-			for _, g := range core.GuardsAt(r.Block()) {
-				u, isLoad := g.Cond.(*ssa.UnOp)
-				if !g.Pol || !isLoad || core.Render(u) != "back.avail" {
+			if !rbFactsImply(p, facts, thrAtom) {
+				v.ok, v.detail = false, "a path answers true without having taken the failNum >= failThreshold branch"
+				return
+			}
+			found := false
+			for _, ft := range facts {
+				if !ft.Pol {
 					continue
 				}
-				// the load is under the write lock and precedes every setAvail
-				before := true
-				for _, s := range sets {
-					if !core.Dominates(u, s.(ssa.Instruction)) {
-						before = false
-					}
+				u, ok := rbRoot(p, ft.V).(*ssa.UnOp)
+				if !ok {
+					continue
 				}
-				if ls.Holds(u, "back.RWMutex", "W") && before && okSet {
-					// no unlock between the load and the return
-					rel := core.ReachAvoiding(fn, u, nil, func(x ssa.Instruction) bool {
-						call, ok := x.(*ssa.Call)
-						if !ok {
-							return false
-						}
-						k, _, ok := core.LockEvent(&call.Call)
-						return ok && (k == "Unlock" || k == "RUnlock")
-					})
-					ok = rel == nil
+				base, isAvail := rbFieldLoad(u, bkT, "avail")
+				if !isAvail || rbRoot(p, base) != recv || u.Parent() != fn {
+					continue
+				}
+				if !rbHoldsUp(p, u, ".RWMutex", "W", 3) {
+					continue
+				}
+				// order on the path: load, then the writes, no unlock after the load
+				seenLoad, bad := false, false
+				path.Instrs(func(in ssa.Instruction) bool {
+					if in == ssa.Instruction(u) {
+						seenLoad = true
+						return true
+					}
+					if !seenLoad && isWrite[in] {
+						bad = true
+					}
+					if seenLoad && mayUnlock(in) {
+						bad = true
+					}
+					return true
+				})
+				if seenLoad && !bad {
+					found = true
 				}
 			}
-			downGuard := core.HasGuard(r.Block(), func(g core.Guard) bool {
-				b, ok := g.Cond.(*ssa.BinOp)
-				return ok && g.Pol && b.Op == token.GEQ && core.Render(b.X) == "back.failNum"
-			})
-			c.Check("test-and-set", fmt.Sprintf("BfeBackend.UpdateStatus:return#%d", i), r.Pos(), ok && downGuard,
-				"`return true` (start a checker) must depend on the previous availability read inside the same write-locked section that executes setAvail(false), and on the threshold being reached; otherwise two concurrent failures both start a checker")
+			if !found {
+				v.ok, v.detail = false, "a path answers true without depending on the previous availability read under the write lock before avail is written (or the lock is released in between)"
+			}
+		})
+		nRet := 0
+		for i, r := range core.Returns(fn) {
+			v := perRet[r]
+			if v == nil {
+				continue
+			}
+			nRet++
+			c.Check("test-and-set", fmt.Sprintf("BfeBackend.UpdateStatus:return#%d", i), r.Pos(), v.ok && complete,
+				"`true` (start a checker) must depend on the previous availability read inside the same write-locked section that executes setAvail(false), and on the threshold being reached; otherwise two concurrent failures both start a checker: "+v.detail)
+		}
+		if nRet == 0 {
+			c.Check("test-and-set", "BfeBackend.UpdateStatus:never-true", fn.Pos(), false, "UpdateStatus can never answer true (or its paths could not be enumerated): no checker would ever be started")
 		}
 		c.Min("test-and-set", 1)
 	}
 	// ---- (b) spawn census -----------------------------------------------------------
-	spawns := 0
-	for _, fn := range c.P.SrcFuncs("") {
+	isProbe := func(in ssa.Instruction) bool { _, ok := rbCallTo(in, pkg+".CheckConnect"); return ok }
+	upd := p.Func(pkg, "UpdateStatus")
+	var updRegion []*ssa.Function
+	if upd != nil {
+		updRegion = rbRegion(p, upd)
+	}
+	var checker *ssa.Function
+	for _, fn := range p.SrcFuncs("") {
 		core.Instrs(fn, func(in ssa.Instruction) {
 			g, ok := in.(*ssa.Go)
-			if !ok || !core.CallIs(&g.Call, pkg+".check") {
+			if !ok {
 				return
 			}
-			spawns++
-			okFn := core.FuncKey(fn) == pkg+".UpdateStatus"
-			guard := core.HasGuard(in.Block(), func(gd core.Guard) bool {
-				call, ok := gd.Cond.(*ssa.Call)
-				return ok && gd.Pol && core.CallIs(&call.Call, T("UpdateStatus")) && strings.HasSuffix(core.Render(call.Call.Args[1]), ".FailNum") && sameElem(call.Call.Args[0], g.Call.Args[0])
+			callee := g.Call.StaticCallee()
+			if callee == nil {
+				if mc, isMC := g.Call.Value.(*ssa.MakeClosure); isMC {
+					callee, _ = mc.Fn.(*ssa.Function)
+				}
+			}
+			if !core.CallIs(&g.Call, pkg+".check") && !core.MayPass(callee, isProbe, 3) {
+				return
+			}
+			okFn := false
+			for _, r := range updRegion {
+				if r == fn {
+					okFn = true
+				}
+			}
+			if okFn && callee != nil && checker == nil {
+				checker = callee
+			}
+			var who ssa.Value
+			for _, a := range g.Call.Args {
+				if who == nil && strings.HasSuffix(core.TypeStr(a.Type()), bkT) {
+					who = a
+				}
+			}
+			guard := who != nil && rbGuarded(p, in.Block(), func(v ssa.Value, pol bool) bool {
+				call, ok := v.(*ssa.Call)
+				return ok && pol && core.CallIs(&call.Call, T("UpdateStatus")) && len(call.Call.Args) == 2 &&
+					rbDerefOfField(p, call.Call.Args[1], "FailNum") && rbSame(p, call.Call.Args[0], who)
 			})
 			c.Check("spawn-guard", core.FuncKey(fn), in.Pos(), okFn && guard, "a health checker is started outside backend.UpdateStatus or without BfeBackend.UpdateStatus(*conf.FailNum) having returned true for that backend; guards: "+strings.Join(core.GuardStrs(in.Block()), " && "))
 		})
 	}
 	c.Min("spawn-guard", 1)
-	if fn := c.P.Func(pkg, "UpdateStatus"); fn == nil {
+	isUpdCall := func(in ssa.Instruction) bool {
+		_, ok := in.(*ssa.Call)
+		if !ok {
+			return false
+		}
+		_, ok = rbCallTo(in, T("UpdateStatus"))
+		return ok
+	}
+	if upd == nil {
 		c.Missing(pkg + ".UpdateStatus")
 	} else {
-		c.Analysed(core.FuncKey(fn))
+		c.Analysed(core.FuncKey(upd))
 		// every return either is guarded by conf == nil or passed the BfeBackend.UpdateStatus call
-		for i, r := range core.Returns(fn) {
-			passed := false
-			for _, ci := range core.Calls(fn, T("UpdateStatus")) {
-				if core.Dominates(ci.(ssa.Instruction), r) {
-					passed = true
-				}
-			}
-			nilConf := core.HasGuard(r.Block(), func(g core.Guard) bool {
-				b, ok := g.Cond.(*ssa.BinOp)
-				return ok && isNilConst(b.Y) && strings.Contains(core.Render(b.X), "getCheckConf(") && ((b.Op == token.EQL && g.Pol) || (b.Op == token.NEQ && !g.Pol))
-			})
-			c.Check("status-evaluated", fmt.Sprintf("UpdateStatus:return#%d", i), r.Pos(), passed || nilConf, "backend.UpdateStatus returns without evaluating BfeBackend.UpdateStatus although a check conf exists: the backend may pass its failure threshold unnoticed")
+		mustUpd := core.LiftMust(isUpdCall, 3)
+		nilConf := rbCmpAtom(token.EQL, func(v ssa.Value) bool {
+			return strings.HasSuffix(core.TypeStr(v.Type()), "cluster_conf.BackendCheck") && !isNilConst(v)
+		}, isNilConst)
+		for i, r := range core.Returns(upd) {
+			skipped := core.ReachAvoiding(upd, nil, mustUpd, func(x ssa.Instruction) bool { return x == ssa.Instruction(r) }) != nil
+			c.Check("status-evaluated", fmt.Sprintf("UpdateStatus:return#%d", i), r.Pos(), !skipped || rbGuarded(p, r.Block(), nilConf), "backend.UpdateStatus returns without evaluating BfeBackend.UpdateStatus although a check conf exists: the backend may pass its failure threshold unnoticed")
 		}
 		c.Min("status-evaluated", 2)
 	}
-	if fn := c.P.Func(pkg, "BfeBackend.OnFail"); fn == nil {
+	if fn := p.Func(pkg, "BfeBackend.OnFail"); fn == nil {
 		c.Missing(T("OnFail"))
 	} else {
 		c.Analysed(core.FuncKey(fn))
-		add := core.Calls(fn, T("AddFailNum"))
-		upd := core.Calls(fn, pkg+".UpdateStatus")
-		ok := len(add) == 1 && len(upd) == 1 && core.Dominates(add[0].(ssa.Instruction), upd[0].(ssa.Instruction)) &&
-			core.MustPass(fn, nil, func(x ssa.Instruction) bool { return x == upd[0].(ssa.Instruction) }) == nil &&
-			sameElem(add[0].Common().Args[0], upd[0].Common().Args[0])
-		c.Check("onfail", "BfeBackend.OnFail", fn.Pos(), ok, "OnFail must count the failure (AddFailNum) and then evaluate the status (UpdateStatus) of the same backend on every path")
+		recv := ssa.Value(fn.Params[0])
+		isAdd := func(in ssa.Instruction) bool {
+			ci, ok := rbCallTo(in, T("AddFailNum"))
+			return ok && rbSame(p, ci.Common().Args[0], recv)
+		}
+		isEval := func(in ssa.Instruction) bool {
+			if _, plain := in.(*ssa.Call); !plain {
+				return false
+			}
+			ci, ok := rbCallTo(in, pkg+".UpdateStatus")
+			return ok && rbSame(p, ci.Common().Args[0], recv)
+		}
+		evaluated := core.MustPass(fn, nil, core.LiftMust(isEval, 2)) == nil
+		// the status is never evaluated before the failure has been counted
+		early := newRbReach(p, isAdd, isEval).FromEntry(fn)
+		c.Check("onfail", "BfeBackend.OnFail", fn.Pos(), evaluated && early == nil, "OnFail must count the failure (AddFailNum) and then evaluate the status (UpdateStatus) of the same backend on every path")
 	}
-	if fn := c.P.Func(pkg, "BfeBackend.OnSuccess"); fn == nil {
+	if fn := p.Func(pkg, "BfeBackend.OnSuccess"); fn == nil {
 		c.Missing(T("OnSuccess"))
 	} else {
 		c.Analysed(core.FuncKey(fn))
-		bad := core.MustPass(fn, nil, func(x ssa.Instruction) bool {
-			ci, ok := x.(ssa.CallInstruction)
-			return ok && core.CallIs(ci.Common(), T("ResetFailNum"))
-		})
+		bad := core.MustPass(fn, nil, core.LiftMust(func(x ssa.Instruction) bool {
+			if _, ok := rbCallTo(x, T("ResetFailNum")); ok {
+				_, plain := x.(*ssa.Call)
+				return plain
+			}
+			return isStoreZero("failNum")(x)
+		}, 2))
 		c.Check("onsuccess-reset", "BfeBackend.OnSuccess", fn.Pos(), bad == nil, "OnSuccess must reset the consecutive-failure counter on every path")
 	}
-	if fn := c.P.Func(pkg, "BfeBackend.ResetFailNum"); fn != nil {
-		ok := false
-		core.Instrs(fn, func(in ssa.Instruction) {
-			if st, isSt := in.(*ssa.Store); isSt && core.Render(st.Addr) == "back.failNum" && isZero(st.Val) {
-				ok = true
-			}
-		})
+	if fn := p.Func(pkg, "BfeBackend.ResetFailNum"); fn != nil {
+		recv := ssa.Value(fn.Params[0])
+		ok := core.AlwaysPasses(fn, func(in ssa.Instruction) bool {
+			st, base := storeTo(in, "failNum")
+			return st != nil && isZero(st.Val) && rbRoot(p, base) == recv
+		}, 2)
 		c.Check("onsuccess-reset", "BfeBackend.ResetFailNum", fn.Pos(), ok, "ResetFailNum must store 0 into failNum")
 	} else {
 		c.Missing(T("ResetFailNum"))
 	}
-	if fn := c.P.Func(pkg, "BfeBackend.AddFailNum"); fn != nil {
-		ok := false
-		core.Instrs(fn, func(in ssa.Instruction) {
-			if st, isSt := in.(*ssa.Store); isSt && core.Render(st.Addr) == "back.failNum" && core.Render(st.Val) == "(back.failNum + 1)" {
-				ok = true
+	if fn := p.Func(pkg, "BfeBackend.AddFailNum"); fn != nil {
+		recv := ssa.Value(fn.Params[0])
+		ok := core.AlwaysPasses(fn, func(in ssa.Instruction) bool {
+			st, base := storeTo(in, "failNum")
+			if st == nil || rbRoot(p, base) != recv {
+				return false
 			}
-		})
+			b, isB := st.Val.(*ssa.BinOp)
+			if !isB || b.Op != token.ADD {
+				return false
+			}
+			one := func(v ssa.Value) bool {
+				k, ok := v.(*ssa.Const)
+				return ok && k.Value != nil && k.Value.ExactString() == "1"
+			}
+			old := func(v ssa.Value) bool {
+				ob, ok := rbFieldLoad(v, bkT, "failNum")
+				return ok && rbRoot(p, ob) == recv
+			}
+			return (old(b.X) && one(b.Y)) || (old(b.Y) && one(b.X))
+		}, 2)
 		c.Check("onfail", "BfeBackend.AddFailNum", fn.Pos(), ok, "AddFailNum must increment failNum by one")
 	} else {
 		c.Missing(T("AddFailNum"))
 	}
-	if fn := c.P.Func(pkg, "BfeBackend.setAvail"); fn == nil {
-		c.Missing(T("setAvail"))
-	} else {
-		c.Analysed(core.FuncKey(fn))
-		stored, reset := false, false
+	// every function that can make a published backend available resets failNum when it does
+	// (today: setAvail, reached from SetAvail(true) of the checker)
+	nAvailFns := 0
+	for _, fn := range fns {
+		var stores []*ssa.Store
 		core.Instrs(fn, func(in ssa.Instruction) {
-			st, ok := in.(*ssa.Store)
-			if !ok {
+			st, base := storeTo(in, "avail")
+			if st == nil {
 				return
 			}
-			if core.Render(st.Addr) == "back.avail" && core.Render(st.Val) == "avail" {
-				stored = true
+			if al, isAl := base.(*ssa.Alloc); isAl && al.Heap {
+				return // object under construction
 			}
-			if core.Render(st.Addr) == "back.failNum" && isZero(st.Val) {
-				// executed whenever the new value is true
-				reset = core.HasGuard(in.Block(), func(g core.Guard) bool {
-					return g.Pol && (g.Str == "back.avail" || g.Str == "avail")
-				}) || len(core.GuardsAt(in.Block())) == 0
+			if k, isK := rbBoolConst(st.Val); isK && !k {
+				return // a down transition
 			}
+			stores = append(stores, st)
 		})
-		c.Check("avail-resets-failnum", "BfeBackend.setAvail", fn.Pos(), stored && reset, "setAvail must store the new availability and reset failNum when the backend becomes available (otherwise one later failure re-trips the threshold)")
+		if len(stores) == 0 {
+			continue
+		}
+		nAvailFns++
+		c.Analysed(core.FuncKey(fn))
+		for i, st := range stores {
+			base, _ := rbFieldAddr(st.Addr, bkT, "avail")
+			okReset := false
+			core.Instrs(fn, func(in ssa.Instruction) {
+				z, zb := storeTo(in, "failNum")
+				if z == nil || !isZero(z.Val) || !rbSame(p, zb, base) {
+					return
+				}
+				if !st.Block().Dominates(z.Block()) && !z.Block().Dominates(st.Block()) {
+					return
+				}
+				// the reset is executed whenever the new value is true: its guards (beyond those of the
+				// store) only test the new value / the field just written
+				outer := map[*ssa.If]bool{}
+				for _, g := range core.GuardsAt(st.Block()) {
+					outer[g.If] = true
+				}
+				good := true
+				for _, g := range core.GuardsAt(z.Block()) {
+					if outer[g.If] {
+						continue
+					}
+					v, pol := rbNorm(g.Cond, g.Pol)
+					isNew := v == st.Val
+					if lb, isLoad := rbFieldLoad(v, bkT, "avail"); isLoad && rbSame(p, lb, base) {
+						if u, isU := v.(*ssa.UnOp); isU && core.Dominates(st, u) {
+							isNew = true
+						}
+					}
+					if !isNew || !pol {
+						good = false
+					}
+				}
+				if good {
+					okReset = true
+				}
+			})
+			key := "BfeBackend." + fn.Name()
+			if i > 0 {
+				key = fmt.Sprintf("%s#%d", key, i+1)
+			}
+			c.Check("avail-resets-failnum", key, st.Pos(), okReset, fn.Name()+" can set avail=true without resetting failNum: one later failure re-trips the threshold instead of the configured number of consecutive failures")
+		}
+	}
+	if nAvailFns == 0 {
+		c.Check("avail-resets-failnum", "none", token.NoPos, false, "no function makes a backend available again")
 	}
 	// ---- (c) checker loop ---------------------------------------------------------------
-	if fn := c.P.Func(pkg, "check"); fn == nil {
+	if checker == nil {
+		checker = p.Func(pkg, "check")
+	}
+	if fn := checker; fn == nil {
 		c.Missing(pkg + ".check")
 	} else {
-		c.Analysed(core.FuncKey(fn))
-		probes := core.Calls(fn, pkg+".CheckConnect")
-		c.Check("probe", "check:probe-sites", fn.Pos(), len(probes) == 1, fmt.Sprintf("expected one CheckConnect site in the checker loop, found %d", len(probes)))
-		ups := 0
-		for _, ci := range core.Calls(fn, T("SetAvail")) {
+		region := rbRegion(p, fn)
+		inRegion := map[*ssa.Function]bool{}
+		for _, g := range region {
+			inRegion[g] = true
+			c.Analysed(core.FuncKey(g))
+		}
+		who := ssa.Value(nil)
+		for _, prm := range fn.Params {
+			if who == nil && strings.HasSuffix(core.TypeStr(prm.Type()), bkT) {
+				who = prm
+			}
+		}
+		sameBackend := func(v ssa.Value) bool { return who == nil || rbSame(p, v, who) }
+		callOn := func(in ssa.Instruction, name string) (ssa.CallInstruction, bool) {
+			if _, plain := in.(*ssa.Call); !plain {
+				return nil, false
+			}
+			ci, ok := rbCallTo(in, T(name))
+			if !ok || len(ci.Common().Args) == 0 || !sameBackend(ci.Common().Args[0]) {
+				return nil, false
+			}
+			return ci, true
+		}
+		isAdd := func(in ssa.Instruction) bool { _, ok := callOn(in, "AddSuccNum"); return ok }
+		isReset := func(in ssa.Instruction) bool { _, ok := callOn(in, "ResetSuccNum"); return ok }
+		isCheckAvail := func(in ssa.Instruction) bool { _, ok := callOn(in, "CheckAvail"); return ok }
+		isCloseChan := func(v ssa.Value) bool {
+			v = rbRoot(p, v)
+			if call, ok := v.(*ssa.Call); ok {
+				return core.CallIs(&call.Call, T("CloseChan")) && len(call.Call.Args) > 0 && sameBackend(call.Call.Args[0])
+			}
+			base, ok := rbFieldLoad(v, bkT, "closeChan")
+			return ok && sameBackend(base)
+		}
+		isPoll := func(x ssa.Instruction) bool {
+			switch s := x.(type) {
+			case *ssa.Select:
+				for _, st := range s.States {
+					if st.Dir == types.RecvOnly && isCloseChan(st.Chan) {
+						return true
+					}
+				}
+			case *ssa.UnOp:
+				return s.Op == token.ARROW && isCloseChan(s.X)
+			}
+			return false
+		}
+		var probes []*ssa.Call
+		var ups, adds, avails []ssa.CallInstruction
+		for _, g := range region {
+			core.Instrs(g, func(in ssa.Instruction) {
+				if call, ok := in.(*ssa.Call); ok && isProbe(in) {
+					probes = append(probes, call)
+				}
+				if ci, ok := callOn(in, "SetAvail"); ok {
+					ups = append(ups, ci)
+				}
+				if ci, ok := callOn(in, "AddSuccNum"); ok {
+					adds = append(adds, ci)
+				}
+				if ci, ok := callOn(in, "CheckAvail"); ok {
+					avails = append(avails, ci)
+				}
+			})
+		}
+		c.Check("probe", "check:probe-sites", fn.Pos(), len(probes) >= 1, fmt.Sprintf("expected a CheckConnect site in the checker loop, found %d", len(probes)))
+		nUp := 0
+		for _, ci := range ups {
 			in := ci.(ssa.Instruction)
-			if core.Render(ci.Common().Args[1]) != "true" {
+			if k, isK := rbBoolConst(rbRoot(p, ci.Common().Args[1])); isK && !k {
 				c.Check("up-guard", "check:SetAvail-false", in.Pos(), false, "the checker must never mark a backend unavailable")
 				continue
 			}
-			ups++
-			g := core.HasGuard(in.Block(), func(gd core.Guard) bool {
-				call, ok := gd.Cond.(*ssa.Call)
-				return ok && gd.Pol && core.CallIs(&call.Call, T("CheckAvail")) && strings.HasSuffix(core.Render(call.Call.Args[1]), ".SuccNum")
-			})
-			c.Check("up-guard", "check:SetAvail-true", in.Pos(), g, "SetAvail(true) is not control-dependent on CheckAvail(*conf.SuccNum) == true; guards: "+strings.Join(core.GuardStrs(in.Block()), " && "))
-			// restart flag set before availability
-			rs := core.Calls(fn, T("SetRestart"))
-			okR := false
-			for _, r := range rs {
-				if core.Render(r.Common().Args[1]) == "true" && core.Dominates(r.(ssa.Instruction), in) {
-					okR = true
-				}
+			nUp++
+			sfx := ""
+			if nUp > 1 {
+				sfx = fmt.Sprintf("#%d", nUp)
 			}
-			c.Check("up-guard", "check:restart-flag", in.Pos(), okR, "SetRestart(true) must precede SetAvail(true) so that slow start sees the recovery")
+			g := rbGuarded(p, in.Block(), func(v ssa.Value, pol bool) bool {
+				call, ok := v.(*ssa.Call)
+				return ok && pol && core.CallIs(&call.Call, T("CheckAvail")) && len(call.Call.Args) == 2 &&
+					rbDerefOfField(p, call.Call.Args[1], "SuccNum") && rbSame(p, call.Call.Args[0], ci.Common().Args[0])
+			})
+			c.Check("up-guard", "check:SetAvail-true"+sfx, in.Pos(), g, "SetAvail(true) is not control-dependent on CheckAvail(*conf.SuccNum) == true; guards: "+strings.Join(core.GuardStrs(in.Block()), " && "))
+			// restart flag set before availability: SetAvail(true) is not reachable without SetRestart(true)
+			noFlag := newRbReach(p, func(x ssa.Instruction) bool {
+				r, ok := callOn(x, "SetRestart")
+				if !ok {
+					return false
+				}
+				k, isK := rbBoolConst(rbRoot(p, r.Common().Args[1]))
+				return isK && k
+			}, func(x ssa.Instruction) bool { return x == in }).FromEntry(fn)
+			c.Check("up-guard", "check:restart-flag"+sfx, in.Pos(), noFlag == nil, "SetRestart(true) must precede SetAvail(true) so that slow start sees the recovery")
 		}
-		if ups == 0 {
+		if nUp == 0 {
 			c.Check("up-guard", "check:SetAvail-true", fn.Pos(), false, "the checker never marks the backend available")
 		}
-		if len(probes) == 1 {
-			probe := probes[0].(*ssa.Call)
-			// find the branch on the probe's ok result
-			for _, in := range allInstrs(fn) {
-				ifi, ok := in.(*ssa.If)
-				if !ok {
-					continue
-				}
-				ex, ok := ifi.Cond.(*ssa.Extract)
-				if !ok || ex.Tuple != probe || ex.Index != 0 {
-					continue
-				}
-				okBlk, failBlk := ifi.Block().Succs[0], ifi.Block().Succs[1]
-				// failed probe: before probing again (or leaving), ResetSuccNum is passed
-				bad := core.ReachAvoiding(fn, failBlk.Instrs[0], func(x ssa.Instruction) bool {
-					ci, ok := x.(ssa.CallInstruction)
-					return ok && core.CallIs(ci.Common(), T("ResetSuccNum"))
-				}, func(x ssa.Instruction) bool { return x == probe || core.IsReturn(x) })
-				if ci, ok := failBlk.Instrs[0].(ssa.CallInstruction); ok && core.CallIs(ci.Common(), T("ResetSuccNum")) {
-					bad = nil
-				}
-				c.Check("probe-fail-reset", "check:failed-probe", ifi.Pos(), bad == nil, "after a failed probe the consecutive-success counter is not reset before the next probe: successes separated by failures would add up to the threshold")
-				// successful probe: AddSuccNum precedes CheckAvail
-				for _, ca := range core.Calls(fn, T("CheckAvail")) {
-					adds := core.Calls(fn, T("AddSuccNum"))
-					okA := false
-					for _, a := range adds {
-						ai := a.(ssa.Instruction)
-						if core.Dominates(ai, ca.(ssa.Instruction)) && (ai.Block() == okBlk || okBlk.Dominates(ai.Block())) {
-							okA = true
-						}
-					}
-					c.Check("probe-success-count", "check:success", ca.Pos(), okA, "a successful probe must be counted (AddSuccNum, on the success branch) before CheckAvail is consulted")
-				}
-			}
-			c.Min("probe-fail-reset", 1)
-			c.Min("probe-success-count", 1)
-			// every iteration polls the close channel: from the probe back to the probe passes a select/recv on CloseChan()
-			bad := core.ReachAvoiding(fn, probe, func(x ssa.Instruction) bool {
-				switch s := x.(type) {
-				case *ssa.Select:
-					for _, st := range s.States {
-						if strings.Contains(core.Render(st.Chan), "CloseChan(") {
-							return true
-						}
-					}
-				case *ssa.UnOp:
-					return s.Op == token.ARROW && strings.Contains(core.Render(s.X), "CloseChan(")
-				}
-				return false
-			}, func(x ssa.Instruction) bool { return x == probe })
-			c.Check("close-poll", "check:loop", probe.Pos(), bad == nil, "a loop iteration can reach the next probe without polling the backend's close channel: a released backend's checker would run forever")
-			// every cycle of the checker loop (also those that never reach the probe, e.g. the
-			// "no check conf" retry) passes the poll
-			isPoll := func(x ssa.Instruction) bool {
-				switch s := x.(type) {
-				case *ssa.Select:
-					for _, st := range s.States {
-						if strings.Contains(core.Render(st.Chan), "CloseChan(") {
-							return true
-						}
-					}
-				case *ssa.UnOp:
-					return s.Op == token.ARROW && strings.Contains(core.Render(s.X), "CloseChan(")
-				}
+		// a success is counted only after a successful probe ...
+		probeOK := func(v ssa.Value, pol bool) bool {
+			ex, ok := v.(*ssa.Extract)
+			if !ok || !pol || ex.Index != 0 {
 				return false
 			}
-			for _, l := range core.Loops(fn) {
-				if !l.Body[probe.Block()] {
+			call, ok := ex.Tuple.(*ssa.Call)
+			return ok && isProbe(call)
+		}
+		for i, a := range adds {
+			key := "check:counted-on-success"
+			if i > 0 {
+				key = fmt.Sprintf("%s#%d", key, i+1)
+			}
+			c.Check("probe-success-count", key, a.Pos(), rbGuarded(p, a.(ssa.Instruction).Block(), probeOK), "AddSuccNum is executed on a path that did not establish a successful probe: failed probes would count towards the success threshold")
+		}
+		for i, probe := range probes {
+			sfx := ""
+			if i > 0 {
+				sfx = fmt.Sprintf("#%d", i+1)
+			}
+			// ... every probe outcome is recorded before the next probe (or before the checker ends): a
+			// failed probe can only pass ResetSuccNum because AddSuccNum sits on the success branch
+			rr := newRbReach(p, func(x ssa.Instruction) bool { return isAdd(x) || isReset(x) }, isProbe)
+			rr.exitTarget = true
+			bad := rr.From(probe)
+			c.Check("probe-fail-reset", "check:failed-probe"+sfx, probe.Pos(), bad == nil && len(adds) > 0, "after a failed probe the consecutive-success counter is not reset before the next probe: successes separated by failures would add up to the threshold")
+			// ... and a successful probe is counted before CheckAvail is consulted
+			uncounted := newRbReach(p, isAdd, isCheckAvail).From(probe)
+			c.Check("probe-success-count", "check:success"+sfx, probe.Pos(), uncounted == nil && len(avails) > 0, "a successful probe must be counted (AddSuccNum, on the success branch) before CheckAvail is consulted")
+			// every iteration polls the close channel: from the probe back to a probe passes a select/recv on CloseChan()
+			unpolled := newRbReach(p, isPoll, isProbe).From(probe)
+			c.Check("close-poll", "check:loop"+sfx, probe.Pos(), unpolled == nil, "a loop iteration can reach the next probe without polling the backend's close channel: a released backend's checker would run forever")
+		}
+		c.Min("probe-fail-reset", 1)
+		c.Min("probe-success-count", 2)
+		// every cycle of the checker loop (also those that never reach the probe, e.g. the
+		// "no check conf" retry) passes the poll
+		mayProbe := core.LiftMay(isProbe, 3)
+		mustPoll := core.LiftMust(isPoll, 2)
+		nCyc := 0
+		for _, g := range region {
+			for _, l := range core.Loops(g) {
+				if kind, _ := core.LoopKind(l); kind != "" {
+					continue // bounded loop (range / counted): not the checker loop
+				}
+				has := false
+				for b := range l.Body {
+					for _, in := range b.Instrs {
+						if mayProbe(in) {
+							has = true
+						}
+					}
+				}
+				if !has {
 					continue
 				}
+				nCyc++
 				h := l.Header.Instrs[0]
-				cyc := core.ReachAvoiding(fn, h, isPoll, func(x ssa.Instruction) bool { return x == h })
-				if isPoll(h) {
+				cyc := core.ReachAvoiding(g, h, mustPoll, func(x ssa.Instruction) bool { return x == h })
+				if mustPoll(h) {
 					cyc = nil
 				}
-				c.Check("close-poll", "check:every-cycle", h.Pos(), cyc == nil, "the checker loop has a cycle that does not poll the backend's close channel (e.g. a retry path that `continue`s before the poll): the checker of a released backend never stops on that path")
+				key := "check:every-cycle"
+				if nCyc > 1 {
+					key = fmt.Sprintf("%s#%d", key, nCyc)
+				}
+				c.Check("close-poll", key, h.Pos(), cyc == nil, "the checker loop has a cycle that does not poll the backend's close channel (e.g. a retry path that `continue`s before the poll): the checker of a released backend never stops on that path")
 			}
 		}
+		c.Min("close-poll", 2)
 	}
-	if fn := c.P.Func(pkg, "BfeBackend.CheckAvail"); fn == nil {
+	if fn := p.Func(pkg, "BfeBackend.CheckAvail"); fn == nil {
 		c.Missing(T("CheckAvail"))
+	} else if len(fn.Params) < 2 {
+		c.Missing(T("CheckAvail") + " (receiver, threshold)")
 	} else {
 		c.Analysed(core.FuncKey(fn))
-		for i, r := range core.Returns(fn) {
-			rv := core.RetVals(r)
-			if core.Render(rv[0]) != "true" {
+		recv, thr := ssa.Value(fn.Params[0]), ssa.Value(fn.Params[1])
+		body := rbUnwrapTail(p, fn)
+		isSucc := func(v ssa.Value) bool {
+			base, ok := rbFieldLoad(rbRoot(p, v), bkT, "succNum")
+			return ok && rbRoot(p, base) == recv
+		}
+		thrAtom := rbCmpAtom(token.GEQ, isSucc, func(v ssa.Value) bool { return rbRoot(p, v) == thr })
+		resets := core.LiftMust(func(in ssa.Instruction) bool {
+			st, base := storeTo(in, "succNum")
+			return st != nil && isZero(st.Val) && rbRoot(p, base) == recv
+		}, 2)
+		type verdict struct{ thr, reset bool }
+		perRet := map[*ssa.Return]*verdict{}
+		complete := rbResultPaths(body, 0, true, func(r *ssa.Return, path *core.Path, facts []rbFact) {
+			v := perRet[r]
+			if v == nil {
+				v = &verdict{true, true}
+				perRet[r] = v
+			}
+			if !rbFactsImply(p, facts, thrAtom) {
+				v.thr = false
+			}
+			if !path.Has(resets) {
+				v.reset = false
+			}
+		})
+		for i, r := range core.Returns(body) {
+			v := perRet[r]
+			if v == nil {
 				continue
 			}
-			g := core.HasGuard(r.Block(), func(gd core.Guard) bool {
-				b, ok := gd.Cond.(*ssa.BinOp)
-				return ok && gd.Pol && b.Op == token.GEQ && core.Render(b.X) == "back.succNum" && core.Render(b.Y) == "succThreshold"
-			})
-			reset := false
-			for _, in := range r.Block().Instrs {
-				if st, ok := in.(*ssa.Store); ok && core.Render(st.Addr) == "back.succNum" && isZero(st.Val) {
-					reset = true
-				}
-			}
-			c.Check("succ-threshold", fmt.Sprintf("BfeBackend.CheckAvail:return#%d", i), r.Pos(), g && reset, "CheckAvail must answer true only under succNum >= succThreshold and reset succNum when it does")
+			c.Check("succ-threshold", fmt.Sprintf("BfeBackend.CheckAvail:return#%d", i), r.Pos(), complete && v.thr && v.reset, fmt.Sprintf("CheckAvail must answer true only under succNum >= succThreshold and reset succNum when it does (threshold established: %v, counter reset on the path: %v)", v.thr, v.reset))
 		}
 		c.Min("succ-threshold", 1)
 	}
 	// ---- (d) close census -------------------------------------------------------------------
-	if fld, ok := c.P.Obj(pkg, "BfeBackend.closeChan").(*types.Var); ok {
+	if fld, ok := p.Obj(pkg, "BfeBackend.closeChan").(*types.Var); ok {
 		n := 0
-		for _, fn := range c.P.SrcFuncs("") {
+		for _, fn := range p.SrcFuncs("") {
 			core.Instrs(fn, func(in ssa.Instruction) {
 				ci, ok := in.(ssa.CallInstruction)
 				if !ok {
